@@ -250,15 +250,19 @@ def call_observer(obj, name):
         saved = Serializable.post_text_encoder
         mine = Upper()
         Serializable.post_text_encoder = mine
+
+        def restored():
+            return type(obj).post_text_encoder is mine and Serializable.post_text_encoder is mine
         try:
             r = obj.as_markdown()
-            left = Serializable.post_text_encoder is mine
-            return project([r, 'encoder-restored' if left else 'ENCODER-NOT-RESTORED']), False
+            return project([r, 'encoder-restored' if restored() else 'ENCODER-NOT-RESTORED']), False
         except Exception as e:  # pylint: disable=broad-except
-            left = Serializable.post_text_encoder is mine
-            return 'raised:' + type(e).__name__ + ('' if left else ':ENCODER-NOT-RESTORED'), True
+            return 'raised:' + type(e).__name__ + ('' if restored() else ':ENCODER-NOT-RESTORED'), True
         finally:
             Serializable.post_text_encoder = saved
+            for klass in type(obj).__mro__:      # undo a class-level leftover so later cases start clean
+                if klass is not Serializable and 'post_text_encoder' in vars(klass):
+                    delattr(klass, 'post_text_encoder')
     try:
         a = getattr(type(obj), name)
         if isinstance(a, property):
